@@ -340,12 +340,14 @@ match * match_new(size_t start, size_t len, unsigned short match_type) {
 
 
 void match_free(match * m) {
-	if (m) {
-		if (m->next) {
-			match_free(m->next);
-		}
+	match * next;
 
+	// Iterative -- the list has one entry per match in the text, and freeing it
+	// recursively overflowed the stack for a few hundred thousand matches
+	while (m) {
+		next = m->next;
 		free(m);
+		m = next;
 	}
 }
 
